@@ -190,5 +190,99 @@ fn try_fast_path_rebase_note_remap(
 }
 //#end
 
+// the cherry-pick twin: the same shortcut over explicit (source, new) pairs
+#[verifier::external_body]
+fn opq_tracked_match_slice(pairs: &[(String, String)]) -> (r: Result<bool, GitAiError>)
+    ensures r is Ok ==> r->Ok_0 == tracked_match(pairs@),
+{ unimplemented!() }
+#[verifier::external_body]
+fn opq_originals_slice(pairs: &[(String, String)]) -> (r: Vec<String>)
+    ensures r@.len() == pairs@.len(), forall|i: int| 0 <= i < r@.len() ==> (#[trigger] r@[i])@ == pairs@[i].0@,
+{ unimplemented!() }
+//#item file=src/authorship/rebase_authorship.rs kind=fn name=try_fast_path_cherry_pick_note_remap opaque='[{"expr": "std::time::Instant::now()", "call": "opq_now()"}, {"expr": "tracked_paths_match_for_commit_pairs(repo, commit_pairs, tracked_paths)", "call": "opq_tracked_match_slice(commit_pairs)"}, {"expr": "debug_performance_log(&format!( \"Fast-path cherry-pick note remap: compared tracked blobs for {} commit pairs in {}ms\", commit_pairs.len(), compare_start.elapsed().as_millis() ))", "call": "opq_log()"}, {"expr": "commit_pairs .iter() .map(|(source_commit, _new_commit)| source_commit.clone()) .collect()", "call": "opq_originals_slice(commit_pairs)"}, {"expr": "note_blob_oids_for_commits(repo, &source_commits)", "call": "opq_note_oids(&source_commits)"}, {"expr": "debug_performance_log(&format!( \"Fast-path cherry-pick note remap: resolved {} note blob oids in {}ms\", source_note_blob_oids.len(), note_oid_lookup_start.elapsed().as_millis() ))", "call": "opq_log()"}, {"expr": "source_note_blob_oids.len()", "call": "opq_oid_len(&source_note_blob_oids)"}, {"expr": "source_note_blob_oids.get(source_commit)", "call": "opq_oid_get(&source_note_blob_oids, source_commit)"}, {"expr": "remapped_blob_entries .iter() .map(|(_new_commit, blob_oid)| blob_oid.clone()) .collect::<HashSet<_>>() .into_iter() .collect()", "call": "opq_unique_oids(&remapped_blob_entries)"}, {"expr": "blob_oids.sort()", "call": "opq_sort_strings(&mut blob_oids)"}, {"expr": "batch_read_blob_contents(repo, &blob_oids)", "call": "opq_read_blobs(&blob_oids)"}, {"expr": "blob_contents.get(&blob_oid)", "call": "opq_content_get(&blob_contents, &blob_oid)"}, {"expr": "remap_note_content_for_target_commit(raw_note, &new_commit)", "call": "opq_remap_note(raw_note, &new_commit)"}, {"expr": "crate::git::refs::notes_add_batch(repo, &remapped_note_entries)", "call": "opq_notes_add_batch(&remapped_note_entries, Ghost(pairs), Ghost(source_note_blob_oids), Ghost(blob_contents))"}, {"expr": "debug_performance_log(&format!( \"Fast-path cherry-pick note remap: wrote {} remapped notes in {}ms\", remapped_count, write_start.elapsed().as_millis() ))", "call": "opq_log()"}, {"expr": "debug_log(&format!( \"Fast-path remapped authorship logs for {} cherry-picked commits (blob-equivalent tracked files)\", remapped_count ))", "call": "opq_log()"}, {"expr": "debug_performance_log(&format!( \"Fast-path cherry-pick note remap complete in {}ms\", fast_path_start.elapsed().as_millis() ))", "call": "opq_log()"}]'
+fn try_fast_path_cherry_pick_note_remap(
+    repo: &Repository,
+    commit_pairs: &[(String, String)],
+    tracked_paths: &[String],
+) -> (r_: Result<bool, GitAiError>)
+//@     ensures
+//@         r_ is Ok && r_->Ok_0 ==> commit_pairs@.len() > 0 && tracked_paths@.len() > 0,
+//@         // (what is written: the precondition of the notes_add_batch stub, proved at the call site - for every pair, in
+//@         // order, the note of ITS source commit re-targeted at ITS new commit)
+{
+    //@ let ghost pairs = commit_pairs@;
+    let fast_path_start = opq_now();
+    if commit_pairs.is_empty() || tracked_paths.is_empty() {
+        return Ok(false);
+    }
+
+    let compare_start = opq_now();
+    if !opq_tracked_match_slice(commit_pairs)? {
+        return Ok(false);
+    }
+    opq_log();
+
+    let source_commits: Vec<String> = opq_originals_slice(commit_pairs);
+    let note_oid_lookup_start = opq_now();
+    let source_note_blob_oids = opq_note_oids(&source_commits)?;
+    opq_log();
+    if opq_oid_len(&source_note_blob_oids) != source_commits.len() {
+        return Ok(false);
+    }
+
+    let mut remapped_blob_entries: Vec<(String, String)> = Vec::with_capacity(commit_pairs.len());
+    for (source_commit, new_commit) in it_0: commit_pairs
+    //@     invariant
+    //@         pairs == commit_pairs@, it_0.snapshot@.remaining().len() == pairs.len(), remapped_blob_entries@.len() == it_0.index@,
+    //@         forall|i: int| 0 <= i < pairs.len() ==> *(#[trigger] it_0.snapshot@.remaining()[i]) == pairs[i],
+    //@         forall|i: int| 0 <= i < it_0.index@ ==> blob_entry_ok(#[trigger] remapped_blob_entries@[i], pairs[i], source_note_blob_oids),
+    {
+        //@ proof { assert((*source_commit, *new_commit) == pairs[it_0.index@]); }
+        let blob_oid = match opq_oid_get(&source_note_blob_oids, source_commit) {
+            Some(oid) => oid.clone(),
+            None => return Ok(false),
+        };
+        remapped_blob_entries.push((new_commit.clone(), blob_oid));
+    }
+
+    if remapped_blob_entries.is_empty() {
+        return Ok(false);
+    }
+
+    //@ let ghost bes = remapped_blob_entries@;
+    let mut blob_oids: Vec<String> = opq_unique_oids(&remapped_blob_entries);
+    opq_sort_strings(&mut blob_oids);
+    let blob_contents = opq_read_blobs(&blob_oids)?;
+
+    let mut remapped_note_entries: Vec<(String, String)> =
+        Vec::with_capacity(remapped_blob_entries.len());
+    for (new_commit, blob_oid) in it_1: remapped_blob_entries
+    //@     invariant
+    //@         it_1.snapshot@.remaining() == bes, bes.len() == pairs.len(), remapped_note_entries@.len() == it_1.index@,
+    //@         forall|i: int| 0 <= i < bes.len() ==> blob_entry_ok(#[trigger] bes[i], pairs[i], source_note_blob_oids),
+    //@         forall|i: int| 0 <= i < it_1.index@ ==> note_entry_ok(#[trigger] remapped_note_entries@[i], pairs[i], source_note_blob_oids, blob_contents),
+    {
+        //@ let ghost k = it_1.index@;
+        //@ proof { assert((new_commit, blob_oid) == bes[k]); assert(blob_entry_ok(bes[k], pairs[k], source_note_blob_oids)); }
+        let Some(raw_note) = opq_content_get(&blob_contents, &blob_oid) else {
+            return Ok(false);
+        };
+        remapped_note_entries.push((
+            new_commit.clone(),
+            opq_remap_note(raw_note, &new_commit),
+        ));
+    }
+
+    let remapped_count = remapped_note_entries.len();
+    let write_start = opq_now();
+    opq_notes_add_batch(&remapped_note_entries, Ghost(pairs), Ghost(source_note_blob_oids), Ghost(blob_contents))?;
+    opq_log();
+
+    opq_log();
+    opq_log();
+    Ok(true)
+}
+//#end
+
 } // verus!
 fn main() {}
